@@ -1,0 +1,9 @@
+//go:build verif
+// +build verif
+
+package subscriptions
+
+// Contracts for the deductive verifier in /verif (comment-only file, build tag `verif`).
+
+// ---- lock discipline (C20) ---------------------------------------------------------------------
+//@ guarded tree.root by mtx
